@@ -388,7 +388,7 @@ func replayLF(raw json.RawMessage) (string, string) {
 const b64alphabet = "ABCDEFGHIJKLMNOPQRSTUVWXYZabcdefghijklmnopqrstuvwxyz0123456789-_"
 
 func TestLongFormAlterations(t *testing.T) {
-	ev.Rule(chkLongForm, "rapid: for a drawn create request, the canonical long-form DID (control: must resolve on an empty store) and alterations (one time in two resolved right after the same long-lived handler resolved the genuine DID): a single character of the encoded segment substituted (drawn position and replacement; separately the last character, whose unused trailing bits make several spellings decode to the same bytes), a CR / LF / space / = / tab inserted at a drawn position, a single character of the suffix substituted, one member of suffix data or delta altered / removed / added and re-encoded canonically, the unchanged value in a non-canonical encoding (member order, whitespace, escapes), suffix of another create; oracle: resolves iff canonical, suffix == hash(suffix data), delta matches delta hash; non-trivial = an alteration")
+	ev.Rule(chkLongForm, "rapid: for a drawn create request, the canonical long-form DID (control: must resolve on an empty store) and alterations (one time in two resolved right after the same long-lived handler resolved the genuine DID): a single character of the encoded segment substituted (drawn position and replacement; separately the last character, whose unused trailing bits make several spellings decode to the same bytes), a CR / LF / space / = / tab inserted at a drawn position, a single character of the suffix substituted, one member of suffix data or delta altered / removed / added and re-encoded canonically, the unchanged value in a non-canonical encoding (member order, whitespace, escapes), suffix of another create; one alteration in four additionally carries label / domain hint segments between method and suffix; oracle: resolves iff canonical, suffix == hash(suffix data), delta matches delta hash; non-trivial = an alteration")
 	ev.Rapid(t, chkLongForm, 500, 5000, func(t *rapid.T) {
 		cr := genCreate(t)
 		good := cr.LongForm(ns)
@@ -496,7 +496,15 @@ func TestLongFormAlterations(t *testing.T) {
 			}
 			c.DID, c.Resolve = ns+":"+o.Suffix()+":"+seg, false
 		}
-		if variant != "control" && rapid.Bool().Draw(t, "handlerKnowsGenuine") {
+		if variant != "control" && rapid.IntRange(0, 3).Draw(t, "hinted") == 0 {
+			// label / domain hint segments between method and suffix (the form interim DIDs are handed out in): the
+			// altered DID must still not resolve; whether the hinted genuine DID resolves is not stated and not judged
+			hint := rapid.SampledFrom([]string{"interim", "example.com:interim", "uAAA", "ipfs:uEiAbc"}).Draw(t, "hint")
+			c.DID = ns + ":" + hint + ":" + strings.TrimPrefix(c.DID, ns+":")
+			variant += "+hint"
+			c.Note = variant
+		}
+		if !strings.HasPrefix(variant, "control") && rapid.Bool().Draw(t, "handlerKnowsGenuine") {
 			// the same long-lived handler has resolved the genuine long-form DID just before
 			c.Warm = good
 		}
